@@ -37,11 +37,30 @@ def load_check(pid):
     return importlib.import_module(CHECKS[pid])
 
 
+def _cleanup_scratch():
+    """Remove what forked workers that were stopped at the end of the budget left behind under /dev/shm."""
+    import glob
+    import shutil
+    tag = os.environ.get("VERIF_RUN_TAG")
+    if tag and os.environ.get("VERIF_RUN_TAG_OWNER") == str(os.getpid()):
+        for d in glob.glob(f"/dev/shm/vsim-c*-{tag}"):
+            shutil.rmtree(d, ignore_errors=True)
+
+
 def main(argv):
+    try:
+        return _main(argv)
+    finally:
+        _cleanup_scratch()
+
+
+def _main(argv):
     # scratch directories of checks that use the real file system carry this tag, so that two runs of the same
     # check with the same VERIF_SEED (e.g. quick and thorough side by side) never share a directory; fixed width,
     # so that path lengths - and with them message sizes and schedules - do not depend on it
-    os.environ.setdefault("VERIF_RUN_TAG", "%08x" % (os.getpid() & 0xFFFFFFFF))
+    if "VERIF_RUN_TAG" not in os.environ:
+        os.environ["VERIF_RUN_TAG"] = "%08x" % (os.getpid() & 0xFFFFFFFF)
+        os.environ["VERIF_RUN_TAG_OWNER"] = str(os.getpid())
     from vsim import runner
 
     if not argv:
